@@ -250,9 +250,22 @@ class RecordsCallable:
         return np.array([self.records[int(i)] for i in np.asarray(idx).ravel()])
 
 
+class ListCallable:
+    """callable preprocessor that answers with a plain list of lists (an array-like, not an ndarray)"""
+    def __init__(self, pool):
+        self.rows = np.asarray(pool, dtype=float).tolist()
+        self.calls = 0
+
+    def __call__(self, idx):
+        self.calls += 1
+        return [list(self.rows[int(i)]) for i in np.asarray(idx).ravel()]
+
+
 def make_preprocessor(kind, pool):
     if kind == 'array':
         return pool
+    if kind == 'callable-list':
+        return ListCallable(pool)
     if kind == 'list':
         return pool.tolist()
     if kind == 'callable':
